@@ -7,6 +7,9 @@ package flaggedproducer
 // gMarked[s]: the dirty mark of store s is on disk (a Put of the one-byte dirty mark under the flush-ID key has
 // succeeded on the wrapped store since the last clean mark was written).
 //@ ghost gMarked[*flaggedStore] bool
+//@ // gCleanId[s]: the flush ID of the last clean mark that Producer.Flush wrote through store s
+//@ ghost gCleanId[*flaggedStore] []byte
+//@ ghost gCleanOK[*flaggedStore] bool
 //@ // store invariant: the in-memory Dirty flag never claims more than what is on disk
 //@ spec fsinv(s *flaggedStore) bool = s != nil && s.Store != nil && (s.Dirty != 0 ==> gMarked[s])
 //@ spec isDirtyMark(v []byte) bool = len(v) == 1 && v[0] == 222
@@ -52,3 +55,16 @@ package flaggedproducer
 //@   requires s != nil && s.Store != nil
 //@   modifies gBatcherNewBatchN, gBatcherNewBatchRecv, gBatcherNewBatchR0
 //@   ensures  typeis(result, "*flaggedBatch") && unbox(result, "*flaggedBatch").db == s && unbox(result, "*flaggedBatch").Batch == gBatcherNewBatchR0 && gBatcherNewBatchRecv == s.Store && gBatcherNewBatchN == old(gBatcherNewBatchN) + 1
+//@
+//@ // Producer.Flush writes the clean mark (0x00 followed by the flush ID, under the flush-ID key) through every open
+//@ // store and only then declares the store clean in memory; it stops at the first error
+//@ func (*Producer).Flush
+//@   requires f != nil && len(id) <= 4611686018427387904 && forall(n string, has(f.dbs, n) ==> f.dbs[n] != nil)
+//@   modifies all(flaggedStore).Dirty, gCleanId[*], gCleanOK[*], gKeyValueWriterPutN, gKeyValueWriterPutRecv, gKeyValueWriterPutA0, gKeyValueWriterPutA1, gKeyValueWriterPutR0, gWrOpN, gWrOpKind[*], gWrOpRecv[*], gWrOpKey[*], gWrOpVal[*], gWrOpErr[*]
+//@   at call flushable.MarkFlushID[1] ghost gCleanOK[db] = gWrOpErr[gWrOpN - 1] == nil && isMark(gWrOpVal[gWrOpN - 1], 0, id) && gWrOpKey[gWrOpN - 1] == f.flushIDKey && gWrOpRecv[gWrOpN - 1] == box(db, "*flaggedStore") after
+//@   at call flushable.MarkFlushID[1] ghost gCleanId[db] = id after
+//@   ensures  [all] result == nil ==> forall(n string, has(f.dbs, n) ==> f.dbs[n].Dirty == 0 && gCleanOK[f.dbs[n]] && gCleanId[f.dbs[n]] == id)
+//@   ensures  [only] forall(s *flaggedStore, s.Dirty != old(s.Dirty) ==> s.Dirty == 0)
+//@   loop 1 modifies all(flaggedStore).Dirty, gCleanId[*], gCleanOK[*], gKeyValueWriterPutN, gKeyValueWriterPutRecv, gKeyValueWriterPutA0, gKeyValueWriterPutA1, gKeyValueWriterPutR0, gWrOpN, gWrOpKind[*], gWrOpRecv[*], gWrOpKey[*], gWrOpVal[*], gWrOpErr[*]
+//@   loop 1 invariant forall(n string, _visited[n] ==> f.dbs[n].Dirty == 0 && gCleanOK[f.dbs[n]] && gCleanId[f.dbs[n]] == id)
+//@   loop 1 invariant forall(s *flaggedStore, s.Dirty != old(s.Dirty) ==> s.Dirty == 0)
